@@ -5,16 +5,19 @@
 package zknth
 
 //@ func (*Proof).IsValid
+//@   use bits
 //@   nopanic[C05]
 //@   inline
-//@   requires pkok(public.N) && public.R != nil
+//@   requires pkok(public.N) && pkvals(public.N) && pkbig(public.N) && public.R != nil
 
 //@ func (*Proof).Verify
+//@   use bits
 //@   nopanic[C05]
 //@   modifies hstate(hash)
-//@   requires hash != nil && hash.h != nil && pkok(public.N) && public.R != nil
+//@   requires hash != nil && hash.h != nil && pkok(public.N) && pkvals(public.N) && pkbig(public.N) && public.R != nil
 
 //@ func challenge
+//@   use bits
 //@   nopanic[C05]
 //@   inline
-//@   requires hash != nil && hash.h != nil && pkok(public.N) && public.R != nil
+//@   requires hash != nil && hash.h != nil && pkok(public.N) && pkvals(public.N) && pkbig(public.N) && public.R != nil
